@@ -203,6 +203,14 @@ impl Schedule {
     }
 }
 
+#[cfg(ohrs_verif)]
+impl Schedule {
+    /// Verification hook: expose the internal sequence of ranges.
+    pub fn verif_ranges(&self) -> &[TimeRange] {
+        &self.inner
+    }
+}
+
 impl IntoIterator for Schedule {
     type Item = TimeRange;
     type IntoIter = IntoIter;
